@@ -380,6 +380,33 @@ fn t_blocking2(p: &mut Prng) -> Machine {
     machine(vec![s0, s1, s2, s3], p, false)
 }
 
+/// a pair for one side: a blocker (long block on the first packets) and a padder that sends
+/// replace padding while the block is active, so queued normal packets get swapped in
+fn t_replace_pair(p: &mut Prng) -> Vec<Machine> {
+    let b1 = p.chance(1, 2);
+    let s0 = State::new(enum_map! { Event::NormalSent => tr1(1), _ => vec![] });
+    let mut s1 = State::new(enum_map! { Event::BlockingEnd => tr1(0), _ => vec![] });
+    s1.action = Some(Action::BlockOutgoing {
+        bypass: b1,
+        replace: p.chance(1, 3),
+        timeout: konst(*p.pick(&[0.0, 0.0, 100.0])),
+        duration: konst(*p.pick(&[20_000.0, 100_000.0, 300_000.0, 1_000_000.0])),
+        limit: None,
+    });
+    let blocker = machine(vec![s0, s1], p, false);
+    let q0 = State::new(enum_map! { Event::BlockingBegin => tr1(1), _ => vec![] });
+    let again = trp(p, 1, 0);
+    let mut q1 = State::new(enum_map! { Event::PaddingSent => again.clone(), Event::BlockingEnd => tr1(0), _ => vec![] });
+    q1.action = Some(Action::SendPadding {
+        bypass: p.chance(2, 3),
+        replace: p.chance(4, 5),
+        timeout: konst(*p.pick(&[0.0, 1000.0, 5000.0, 30_000.0])),
+        limit: if p.chance(1, 2) { Some(konst(*p.pick(&[1.0, 3.0, 6.0]))) } else { None },
+    });
+    let padder = machine(vec![q0, q1], p, false);
+    vec![blocker, padder]
+}
+
 /// internal timer machine: UpdateTimer, then a second UpdateTimer on TimerBegin (longest /
 /// replace rule, same-instant update), padding on TimerEnd
 fn t_timer(p: &mut Prng) -> Machine {
@@ -650,8 +677,14 @@ pub fn gen_general(p: &mut Prng, id: String) -> SimCase {
     let delay_ns = *p.pick(DELAYS);
     let nmc = *p.pick(&[0usize, 1, 1, 1, 2, 3]);
     let nms = *p.pick(&[0usize, 0, 1, 1, 2, 3]);
-    let mc: Vec<Machine> = (0..nmc).map(|_| gen_sim_machine(p, true)).collect();
-    let ms: Vec<Machine> = (0..nms).map(|_| gen_sim_machine(p, true)).collect();
+    let mut mc: Vec<Machine> = (0..nmc).map(|_| gen_sim_machine(p, true)).collect();
+    let mut ms: Vec<Machine> = (0..nms).map(|_| gen_sim_machine(p, true)).collect();
+    if p.chance(1, 10) {
+        mc = t_replace_pair(p);
+    }
+    if p.chance(1, 12) {
+        ms = t_replace_pair(p);
+    }
     let mut c = SimCase { id, kind: "general".into(), mc, ms, trace, delay_ns, runs: vec![] };
     let pps = gen_pps(p);
     let main = base_run("main", p, pps);
@@ -683,8 +716,17 @@ pub fn gen_blocking(p: &mut Prng, id: String) -> SimCase {
     };
     let nmc = p.range(1, 3) as usize;
     let nms = p.below(3) as usize;
-    let mc: Vec<Machine> = (0..nmc).map(|_| pick(p)).collect();
-    let ms: Vec<Machine> = (0..nms).map(|_| pick(p)).collect();
+    let mut mc: Vec<Machine> = (0..nmc).map(|_| pick(p)).collect();
+    let mut ms: Vec<Machine> = (0..nms).map(|_| pick(p)).collect();
+    if p.chance(1, 3) {
+        mc = t_replace_pair(p);
+        if p.chance(1, 3) {
+            mc.push(pick(p));
+        }
+    }
+    if p.chance(1, 6) {
+        ms = t_replace_pair(p);
+    }
     let mut c = SimCase { id, kind: "blocking".into(), mc, ms, trace, delay_ns, runs: vec![] };
     let pps = if p.chance(1, 5) { Some(*p.pick(&[2usize, 10, 100])) } else { None };
     let mut main = base_run("main", p, pps);
@@ -760,6 +802,31 @@ pub fn probes() -> Vec<SimCase> {
         let mut s1 = State::new(enum_map! { _ => vec![] });
         s1.action = Some(Action::UpdateTimer { replace: false, duration: konst(0.0), limit: None });
         res.push(SimCase { id: "probe-F10-timer-zero".into(), kind: "probe".into(), mc: vec![plain_machine(vec![s0, s1])], ms: vec![], trace: vec![(0, true), (5_000_000, true)], delay_ns: 1_000_000, runs: vec![probe_run(None)] });
+    }
+    // F12: a BlockOutgoing selected by pick_next is executed at selection time, before it is due:
+    // the blocking expiry / bypass flag change early, and a newer action does not supersede it
+    {
+        let a0 = State::new(enum_map! { Event::NormalSent => tr1(1), _ => vec![] });
+        let mut a1 = State::new(enum_map! { _ => vec![] });
+        a1.action = Some(Action::BlockOutgoing { bypass: false, replace: false, timeout: konst(0.0), duration: konst(100_000.0), limit: None });
+        let b0 = State::new(enum_map! { Event::NormalSent => tr1(1), _ => vec![] });
+        let mut b1 = State::new(enum_map! { _ => vec![] });
+        b1.action = Some(Action::SendPadding { bypass: true, replace: false, timeout: konst(10_000.0), limit: None });
+        let c0 = State::new(enum_map! { Event::NormalSent => tr1(1), _ => vec![] });
+        let blk = Action::BlockOutgoing { bypass: true, replace: true, timeout: konst(50_000.0), duration: konst(1_000.0), limit: None };
+        let mut c1 = State::new(enum_map! { Event::TunnelSent => tr1(2), _ => vec![] });
+        c1.action = Some(blk.clone());
+        let mut c2 = State::new(enum_map! { Event::TunnelSent => tr1(1), _ => vec![] });
+        c2.action = Some(blk);
+        res.push(SimCase {
+            id: "probe-F12-early-block-execution".into(),
+            kind: "probe".into(),
+            mc: vec![plain_machine(vec![a0, a1]), plain_machine(vec![b0, b1]), plain_machine(vec![c0, c1, c2])],
+            ms: vec![],
+            trace: vec![(0, true), (200_000_000, true)],
+            delay_ns: 1_000_000,
+            runs: vec![probe_run(None)],
+        });
     }
     // F11: BlockOutgoing with duration 0 (no blocking active), without and with replace
     for (replace, id) in [(false, "probe-F11-block-zero"), (true, "probe-F11b-block-zero-replace")] {
